@@ -8,6 +8,8 @@ import Blue.Proofs.TrivialMove
 import Blue.Proofs.ExpandClosed
 import Blue.Proofs.NextCompactionMain
 import Blue.Proofs.ConstsTieC01
+import Blue.Proofs.ApplyCompaction
+import Blue.Proofs.StoreHistRefine
 /-! # Property C01 — point reads return the latest write, whatever the tree did in between
 
 Property theorems only.  The store is modelled as the list of its components in *search order*
@@ -26,8 +28,8 @@ What is proved: on every state satisfying I1 ∧ I2 the read returns exactly the
 with any outputs and any cut points (with or without GC drops) and trivial moves preserve I2 and,
 when nothing is dropped, every read at every timestamp (`step_compaction*`); a component put on top
 preserves I2 **if** it is newer than everything stored — that is a hypothesis of `step_ingest`
-(a model fact: the two conjuncts of the definition of `NewerAbove (c :: cs)`), not something proved
-of `put`/`flush`/ingest; the selector's slices (`selector_slices_closed`), the
+(a model fact: the two conjuncts of the definition of `NewerAbove (c :: cs)`); for the store's own
+writes and flushes it is PROVED at history level (below); the selector's slices (`selector_slices_closed`), the
 trivial move and `expand_compaction` as repaired (`trivial_move_closed`, `expansion_closed`) are
 closed, each from the guarantee its loop establishes (`Selection.Ok`, `Expansion.Ok`).
 
@@ -47,12 +49,60 @@ up to the one-file overshoot of `expand_compaction` (`nextCompaction_within_limi
 
 What is NOT modelled (see `partial`/`assumptions` of the claim): values and tombstones — a version
 is a `(key, timestamp)` pair, which determines the payload; "a deleted key reads as `None`" and
-"the read timestamp is the last completed sequence number" are compared by the oracle only.  There
-is no history / step relation of the store in C01: no theorem for put/del/batch, memtable
-rollover, flush, reopen or the verifier/trash clean-ups, none that ties `kept ++ outs ++ post` to
-the `allComps` of the successor state (`apply_compaction_inner`), none for I1, and none relating
-`Blue.Kvs.invB` to `Blue.NextCompaction.Inv`.  "The last completed write of the history" is
-therefore a statement about each dumped state, tied to the history by the check.
+"the read timestamp is the last completed sequence number" are compared by the oracle only.  The
+STORE's history relation (put/del/batch, rollover, flush, compaction) is the section `History`
+further down; reopen and the verifier/trash clean-ups have no step relation.
+
+The TREE has a step relation (block `ApplyCompaction` below): `Blue.NextCompaction.applyCompaction`
+follows `Version::apply_compaction_inner` (inputs removed by id at the levels `lower .. upper`
+EXCLUSIVE; the output level cut by POSITION at `lower_bound(first_key)` / `upper_bound(last_key)`
+and the outputs spliced in as given, no sort), `applyTrivialMove` the moving compaction, `ingest`
+`Version::ingest`.  Proved: every answer of the selector meets what that code relies on
+(`nextCompaction_chosen`; in particular the files the positional cut drops are exactly the inputs
+of the output level, `output_level_cut_drops_exactly_inputs`); the search order of the successor
+tree is `above ++ before ++ outs ++ after ++ below` where `kept (tagTree t c) = above ++ before ++
+after` and `treeComps t = (tagTree t c).map snd ++ below` (`apply_components`: the successor is
+NOT literally `kept ++ outs ++ post`, the outputs stand inside the output level); `Inv` — I1
+included — and I2 are preserved (`apply_preserves_inv`, `apply_preserves_newer_above`);
+`Blue.Kvs.invB` ∧ level-0 files well-formed ∧ ids distinct ⇔ `Inv` ∧ I2 on the same tree
+(`inv_bridge`); and from the empty version, after any sequence of ingests / compactions chosen by
+the selector / moving compactions, `Inv` ∧ I2 hold (`tree_invariant_inductive`).  Hypotheses that
+remain (not proved of the implementation): a compaction is applied to the tree it was chosen on
+(no ingest or other compaction in between); the outputs are well-formed, sorted with at most
+touching ranges, inside the compaction's key range, with fresh ids, hold only input versions and
+are "newer above" among themselves (C03's subject); an ingested file is well-formed, has a fresh
+id, a newest timestamp above those of level 0 and versions newer than the tree's for their keys
+(the sequence-number discipline of C06).  Memtables, rollover and flush are outside this relation.
+History level (section `History` below, model `Blue.StoreHist`, proofs `Blue.Proofs.StoreHistRefine`): a
+sequential store over the SAME `KState` / `kvsLoad`, with `seq_no`, `visible_seq_no` and a payload
+map `(key, timestamp) ↦ value | tombstone`, and the operations `write batch` (put/del/batch; a batch
+naming a key twice is rejected), `rollover`, `flush`, `compact`.  Proved by induction over ANY
+operation list from the empty store (`history_invariant`, `history_refines`,
+`history_reads_last_write`, `read_after_write`, `batch_all_visible`, `history_states_pass_invB`):
+the invariant (I1, I2 over memtable :: immutable memtable :: tree components, every timestamp
+published, memtable newer than immutable memtable, level-0 metadata below the memtables) is
+preserved by every operation; `kvsLoad` at the published sequence number returns the version of the
+last accepted write naming the key (none if never written) and the payload map gives its value or
+tombstone.  For write / rollover / flush NOTHING is assumed (that a flushed file is searched first in
+level 0 is proved from `l0Order`'s sort).  A `compact` step carries its obligations `CompactionOk`
+as hypotheses: (1) `hsplit`: the tree's components in search order are `pre ++ post` for a tagging
+`pre`; (2) `hclosed`: `Closed pre` — discharged by `nextCompaction_closed` when `pre` is
+`tagTree t c` of the selector's answer (`compaction_step_from_selector`), by `trivial_move_closed`
+for a move; (3) `hsame`: the outputs hold exactly the inputs' versions (NO GC drop: a history with
+a dropping compaction is outside `history_refines`; I2 alone is `step_compaction`); (4) `houts`:
+outputs "newer above" among themselves (`pieces_newer` for pieces of one sorted run); (5)
+`hkept`/`hdis`/`hplace`: the successor's tree components are the kept components of `pre` with
+the outputs below them, possibly left of kept files they share no key with — the tie to
+`apply_compaction_inner` is a HYPOTHESIS, not proved; (6) `hl0`: no file is added to level 0;
+(7) `hI1`: I1 of the successor — a HYPOTHESIS (outputs inserted in key order), not proved here.
+
+What is NOT modelled (see `partial`/`assumptions` of the claim): reopen / `recover`, the
+verifier/trash clean-ups, external ingest, failing writes, concurrency (operations are completed
+calls, reads happen between them; the window in which a flushed file and the immutable memtable
+are both visible is `Blue.Rollover`'s), GC drops at history level, `(key, timestamp)` uniqueness
+(not needed: the payload map is keyed by the pair and a batch cannot name a key twice).  That the Rust code performs these
+model operations is the correspondence check (`kvsLoad` and `invB` are evaluated on every dumped
+state of every history), not a theorem.
 
 What is checked per run rather than proved: that the implementation's reached states satisfy
 `invB` (and the trees the selector runs on `Blue.NextCompaction.invB`), that the function model
@@ -65,8 +115,9 @@ open Blue.Spec Blue.Kvs
 /-- **reads return the latest write**: if the decidable invariant check passes on a store state,
     the model `kvsLoad` of `KeyValueStore::load` returns exactly the newest `(key, timestamp)`
     version not newer than `t` of the union of everything the store holds, and nothing if there is
-    none.  Values and tombstones are not in the model (the pair determines the payload; tombstone
-    → `None` and "read timestamp = last completed sequence number" are oracle-only). -/
+    none.  Values and tombstones are not in THIS model (the pair determines the payload); the
+    history model `Blue.StoreHist` below carries a payload map and the published sequence number
+    (`history_refines`, `history_reads_last_write`). -/
 theorem read_returns_latest (s : KState) (h : invB s = true) (k t : Nat) :
     (kvsLoad s k t = none → NoneVisible (allComps s).flatten k t)
     ∧ (∀ b, kvsLoad s k t = some b → IsVisible (allComps s).flatten k t b) :=
@@ -91,7 +142,9 @@ theorem tree_lookup_slices (l0 : List (List (Ver Nat))) (levels : List (List TFi
     rolled-over memtable / an ingested file IS newer than everything stored is proved nowhere in
     C01 (it is the sequence-number discipline of C06, observed here through `invB` on every dumped
     state); a flush does not even put its file on top (the file replaces the immutable memtable
-    in level 0, below the memtables): no theorem covers put/del/batch, rollover or flush. -/
+    in level 0, below the memtables).  THIS theorem covers no put/del/batch, rollover or flush; the
+    history theorems at the end of this file (`history_invariant`, `history_refines`) do, for the
+    modelled store `Blue.StoreHist`. -/
 theorem step_ingest {K : Type} [DecidableEq K] (c : List (Ver K)) (cs : List (List (Ver K)))
     (h : NewerAbove cs) (hn : ∀ a ∈ c, ∀ b ∈ cs.flatten, a.1 = b.1 → b.2 < a.2) :
     NewerAbove (c :: cs) := ingest_preserves c cs h hn
@@ -409,6 +462,291 @@ example : invB s1bad = false := by
   rw [s1bad_l0]
   decide +kernel
 
+-- BEGIN ApplyCompaction
+/-! ## the successor tree of a compaction, and the tree invariant as an inductive invariant
+
+    `applyCompaction` models `Version::apply_compaction_inner` as written: the levels
+    `lower .. upper` (upper EXCLUDED) `retain` the files that are no inputs; the output level is
+    `ssts[..lower_bound(first_key)] ++ outputs ++ ssts[upper_bound(last_key)..]` — cut by position,
+    outputs in the order given.  `Chosen t c` is what that code needs of a compaction; every answer
+    of the selector has it. -/
+section ApplyCompaction
+open Blue.NextCompaction
+
+/-- every answer of the selector is `Chosen`: levels differ and exist, the key range is
+    non-empty, the selection is closed, the inputs lie in the levels `lower ..= upper` inside the
+    key range, and every file of the output level meeting the key range is an input -/
+theorem nextCompaction_chosen (n : Num) (o : Opts) (t : Tree) (og : List Core) (hinv : Inv t)
+    {c : Core} (h : nextCompaction n o t og = some c) : Chosen t c :=
+  Blue.NextCompaction.nextCompaction_chosen n o t og hinv h
+
+/-- FINDING, proved harmless: the output level is cut by position, not by id; on every `Chosen`
+    compaction what the cut keeps is exactly what `retain(not an input)` keeps (and
+    `lower_bound ≤ upper_bound`, so the capacity subtraction does not underflow: `lb_le_ub`) -/
+theorem output_level_cut_drops_exactly_inputs {t : Tree} {c : Core} (hinv : Inv t) (hc : Chosen t c) :
+    dropInputs c.inputs (level t c.upper)
+      = (level t c.upper).take (lowerBound (level t c.upper) c.first)
+        ++ (level t c.upper).drop (upperBound (level t c.upper) c.last) :=
+  spliceUpper_drops_inputs hinv hc
+
+/-- **gap (a)**: the search order of the real successor against the shape `kept ++ outs ++ post` of
+    `step_compaction*`: with `pre = tagTree t c` and `post = belowComps t c.upper`,
+    the tree is `pre.map snd ++ post`, `kept pre = above ++ before ++ after`, and the successor is
+    `above ++ before ++ outs ++ after ++ post` — the outputs stand inside the output level, before
+    the kept files right of the key range -/
+theorem apply_components {t : Tree} {c : Core} (hinv : Inv t) (hc : Chosen t c) (outs : List File) :
+    treeComps t = (tagTree t c).map (·.2) ++ belowComps t c.upper
+    ∧ kept (tagTree t c) = aboveComps t c ++ beforeComps t c ++ afterComps t c
+    ∧ treeComps (applyCompaction t c outs)
+        = aboveComps t c ++ beforeComps t c ++ comps outs ++ afterComps t c ++ belowComps t c.upper :=
+  ⟨treeComps_split t c hc.upper_lt, kept_tagTree hinv hc, Blue.NextCompaction.apply_components hinv hc outs⟩
+
+/-- **gap (b)**: `Inv` (files well-formed, I1, ids distinct) is preserved by `apply_compaction_inner` -/
+theorem apply_preserves_inv {t : Tree} {c : Core} {outs : List File} (hinv : Inv t) (hc : Chosen t c)
+    (ho : OutsOk t c outs) : Inv (applyCompaction t c outs) :=
+  Blue.NextCompaction.apply_preserves_inv hinv hc ho
+
+/-- I2 is preserved on the real successor (`mems`: what is searched before the tree) -/
+theorem apply_preserves_newer_above {t : Tree} {c : Core} {outs : List File} (hinv : Inv t) (hc : Chosen t c)
+    (ho : OutsOk t c outs) (mems : List (List (Ver Nat)))
+    (hna : NewerAbove (mems ++ treeComps t))
+    (hsub : ∀ o ∈ outs, ∀ e ∈ o.vers, ∃ i f, f ∈ level t i ∧ f.id ∈ c.inputs ∧ e ∈ f.vers)
+    (hnew : NewerAbove (comps outs)) :
+    NewerAbove (mems ++ treeComps (applyCompaction t c outs)) :=
+  Blue.NextCompaction.apply_preserves_newer_above hinv hc ho mems hna hsub hnew
+
+/-- **gap (c)**: `Blue.Kvs.invB` lacks "level-0 files well-formed" and "ids distinct"; `Inv` lacks
+    I2; with those added they are the same statement about the same tree, and the search orders
+    agree (`allComps = memComps ++ treeComps`) -/
+theorem inv_bridge (mem : List (Ver Nat)) (imm : Option (List (Ver Nat))) (t : Tree) :
+    allComps (toKState mem imm t) = memComps (toKState mem imm t) ++ treeComps t
+    ∧ ((Blue.Kvs.invB (toKState mem imm t) = true
+        ∧ (∀ f ∈ level t 0, f.first ≤ f.last ∧ ∀ v ∈ f.vers, f.first ≤ v.1 ∧ v.1 ≤ f.last)
+        ∧ (t.flatten.map (·.id)).Nodup)
+      ↔ (Inv t ∧ NewerAbove (memComps (toKState mem imm t) ++ treeComps t))) :=
+  ⟨allComps_toKState mem imm t, Blue.NextCompaction.inv_bridge mem imm t⟩
+
+/-- one step of the tree keeps `Inv` ∧ I2 -/
+theorem tree_step_preserves {n : Num} {o : Opts} {t t' : Tree} (hs : Step n o t t')
+    (hinv : Inv t) (hna : NewerAbove (treeComps t)) : Inv t' ∧ NewerAbove (treeComps t') :=
+  step_preserves hs hinv hna
+
+/-- **the tree invariant is inductive**: from the version with `k` empty levels, after any sequence
+    of `Step`s (ingest / compaction chosen by the selector on this tree / moving compaction),
+    `Inv` and I2 hold -/
+theorem tree_invariant_inductive {n : Num} {o : Opts} {k : Nat} {t : Tree} (h : Reachable n o k t) :
+    Inv t ∧ NewerAbove (treeComps t) :=
+  Blue.NextCompaction.tree_invariant_inductive h
+
+/-! non-vacuity on the selector's own answer `c2 = ⟨1, 2, 5, 8, [3, 6], 400⟩` on `Example.t2`:
+    the merged run `5@22, 5@12, 7@21, 8@11` cut into two files that touch at key 5 -/
+namespace ApplyExample
+open Example
+
+def outA : File := mk 9 5 5 150 22 [(5, 22)]
+def outB : File := mk 10 5 8 250 21 [(5, 12), (7, 21), (8, 11)]
+
+theorem t2_chosen : Chosen t2 c2 := Blue.Props.C01.nextCompaction_chosen ieee o2 t2 [] t2_inv t2_choice
+
+theorem outs_ok : OutsOk t2 c2 [outA, outB] :=
+  outsOk_of_flatten (by decide) (by decide) (by decide) (by decide) (by decide)
+
+theorem outs_sub : ∀ o ∈ [outA, outB], ∀ e ∈ o.vers, ∃ i f, f ∈ level t2 i ∧ f.id ∈ c2.inputs ∧ e ∈ f.vers :=
+  sub_of_flatten (by decide)
+
+/-- the successor is what one expects: file 3 gone from level 1, file 6 of level 2 replaced in
+    place by the two outputs (between files 5 and 7), levels 0 and 3 untouched -/
+theorem successor : applyCompaction t2 c2 [outA, outB] =
+    [[mk 1 2 6 600 30 [(2, 30), (6, 29)]],
+     [mk 2 1 3 100 20 [(1, 20), (3, 19)], mk 4 9 12 100 23 [(9, 23), (12, 18)]],
+     [mk 5 0 4 100 10 [(0, 10), (3, 9)], outA, outB, mk 7 9 20 100 13 [(9, 13), (20, 8)]],
+     [mk 8 0 30 50000 1 [(5, 1), (30, 0)]]] := by rfl
+
+example : Inv (applyCompaction t2 c2 [outA, outB]) :=
+  Blue.Props.C01.apply_preserves_inv t2_inv t2_chosen outs_ok
+
+/-- the conclusion agrees with the decidable check evaluated on the successor -/
+example : Blue.NextCompaction.invB (applyCompaction t2 c2 [outA, outB]) = true := by decide +kernel
+
+theorem t2_comps : treeComps t2 = [[(2, 30), (6, 29)], [(1, 20), (3, 19)], [(5, 22), (7, 21)], [(9, 23), (12, 18)],
+    [(0, 10), (3, 9)], [(5, 12), (8, 11)], [(9, 13), (20, 8)], [(5, 1), (30, 0)]] := by decide +kernel
+
+/-- I2 on the successor under a memtable holding `5@40` -/
+example : NewerAbove ([[(5, 40)]] ++ treeComps (applyCompaction t2 c2 [outA, outB])) :=
+  Blue.Props.C01.apply_preserves_newer_above t2_inv t2_chosen outs_ok [[(5, 40)]]
+    (by rw [t2_comps]; decide) outs_sub (by decide)
+
+/-- the search order of the successor: the outputs stand between file 5 and file 7 -/
+example : treeComps (applyCompaction t2 c2 [outA, outB]) =
+    [[(2, 30), (6, 29)], [(1, 20), (3, 19)], [(9, 23), (12, 18)], [(0, 10), (3, 9)],
+     [(5, 22)], [(5, 12), (7, 21), (8, 11)], [(9, 13), (20, 8)], [(5, 1), (30, 0)]] := by
+  rw [successor]; decide +kernel
+
+/-- the hypotheses of the `compact` step are satisfiable, and so are those of `ingest`: two
+    reachable trees -/
+example : Step ieee o2 t2 (applyCompaction t2 c2 [outA, outB]) :=
+  .compact t2 [] c2 [outA, outB] t2_choice outs_ok outs_sub (by decide)
+
+example : Reachable ieee o2 4 (ingest (emptyTree 4) (mk 1 2 6 600 30 [(2, 30), (6, 29)])) :=
+  .step .init (.ingest _ _ (by decide)
+    (by intro l g hg; rw [level_emptyTree] at hg; cases hg)
+    (by intro g hg; rw [level_emptyTree] at hg; cases hg)
+    (by rw [treeComps_emptyTree]; intro a _ b hb; cases hb))
+
+/-- `inv_bridge` on `t2` under a memtable: both sides hold -/
+example : Blue.Kvs.invB (toKState [(5, 40)] none t2) = true :=
+  (((Blue.Props.C01.inv_bridge [(5, 40)] none t2).2).mpr
+    ⟨t2_inv, by rw [t2_comps]; decide⟩).1
+
+end ApplyExample
+end ApplyCompaction
+-- END ApplyCompaction
+
+/-! ## histories: put / del / batch, memtable rollover, flush, compaction
+
+`Blue.StoreHist` (Model/StoreHist.lean) is a sequential store built on the SAME state record
+`KState` and the SAME read function `kvsLoad` as above, with `seq_no` / `visible_seq_no` and a
+payload map `(key, timestamp) ↦ value | tombstone`.  Operations: `write batch` (rejected when it
+names a key twice, else `seq_no + 1` for every entry, into the memtable, published), `rollover`
+(only without an immutable memtable; takes a sequence number as the code does), `flush` (the
+immutable memtable becomes a level-0 file, found by `l0Order` — proved to be the first of level 0 —
+and is cleared), `compact` (the tree is replaced; the step owes `CompactionOk`).  `Valid init ops`
+says exactly: every `compact` step of `ops` meets `CompactionOk` on the state it is applied to;
+writes, rollovers and flushes owe nothing. -/
+section History
+open Blue.StoreHist
+
+/-- **the invariant is inductive**: I1, I2 over memtable :: immutable memtable :: tree components
+    in search order, `visible_seq_no ≤ seq_no`, every stored timestamp `≤ visible_seq_no`, memtable
+    newer than the immutable memtable, level-0 metadata below both — after ANY list of operations
+    from the empty store.  I1/I2 are PROVED for write, rollover and flush; for a compaction step I2
+    is proved from the step's closedness (`step_compaction` + `swap_disjoint_blocks`) and I1 of the
+    successor is one of the step's hypotheses (`CompactionOk.hI1`). -/
+theorem history_invariant (ops : List Op) (hv : Valid init ops) : Blue.StoreHist.Inv (run init ops) :=
+  Blue.StoreHist.history_invariant ops hv
+
+/-- … hence every reached state passes the decidable check `invB` the driver evaluates on the dumps
+    (the hypothesis of `read_returns_latest`) -/
+theorem history_states_pass_invB (ops : List Op) (hv : Valid init ops) : invB (run init ops).st = true :=
+  Blue.StoreHist.history_invB ops hv
+
+/-- **history_refines**: after any history, for every key, `kvsLoad` at any read timestamp from the
+    published sequence number on (`visible_seq_no`, and `seq_no ≥` it) returns exactly the
+    specification map's entry — the `(key, timestamp)` of the last accepted write naming the key,
+    nothing if there was none — and the payload map holds that write's payload at that version
+    (for a delete: the tombstone). -/
+theorem history_refines (ops : List Op) (hv : Valid init ops) (k t : Nat) (ht : (run init ops).vis ≤ t) :
+    kvsLoad (run init ops).st k t = (spec ops k).map (fun e => (k, e.1))
+    ∧ ∀ ts p, spec ops k = some (ts, p) → (run init ops).pay k ts = some p :=
+  Blue.StoreHist.history_refines ops hv k t ht
+
+/-- the same at `seq_no` (`visible_seq_no ≤ seq_no` is part of the invariant) -/
+theorem history_refines_at_seq (ops : List Op) (hv : Valid init ops) (k : Nat) :
+    kvsLoad (run init ops).st k (run init ops).seq = (spec ops k).map (fun e => (k, e.1)) :=
+  (Blue.StoreHist.history_refines ops hv k _ (Blue.StoreHist.history_invariant ops hv).vis_le).1
+
+/-- **load returns the value of the last completed write**: `lastWrite ops` is a function of the
+    operation list alone (no timestamps, no store): the payload of the last accepted write naming
+    the key.  `none`: never written; `some none`: last write was a delete; `some (some v)`: a put. -/
+theorem history_reads_last_write (ops : List Op) (hv : Valid init ops) (k : Nat) :
+    Blue.StoreHist.read (run init ops) k = lastWrite ops k :=
+  Blue.StoreHist.history_reads_last_write ops hv k
+
+/-- **read_after_write**: an accepted write of `(k, p)` followed by any operations that are not
+    accepted writes naming `k` (rollovers, flushes, compactions, writes to other keys, rejected
+    batches) reads back `p` -/
+theorem read_after_write (ops₁ ops₂ : List Op) (b : List (Nat × Payload)) (k : Nat) (p : Payload)
+    (hv : Valid init (ops₁ ++ .write b :: ops₂)) (hb : batchOk b = true) (hk : (k, p) ∈ b)
+    (hun : ∀ op ∈ ops₂, touches k op = false) :
+    Blue.StoreHist.read (run init (ops₁ ++ .write b :: ops₂)) k = some p :=
+  Blue.StoreHist.read_after_write ops₁ ops₂ b k p hv hb hk hun
+
+/-- **batch_all_visible**: after an accepted batch every entry reads back and every other key
+    reads what the history before the batch says -/
+theorem batch_all_visible (ops : List Op) (b : List (Nat × Payload)) (hv : Valid init (ops ++ [.write b]))
+    (hb : batchOk b = true) :
+    (∀ k p, (k, p) ∈ b → Blue.StoreHist.read (run init (ops ++ [.write b])) k = some p)
+    ∧ (∀ k, k ∉ b.map (·.1) → Blue.StoreHist.read (run init (ops ++ [.write b])) k = lastWrite ops k) :=
+  Blue.StoreHist.batch_all_visible ops b hv hb
+
+open Blue.NextCompaction in
+/-- the closedness obligation of a compaction step is discharged by `nextCompaction_closed` for
+    whatever the selector function returns on a tree whose tagged search order is the `pre` of the
+    step; what remains are the facts about the merge's outputs and their placement -/
+theorem compaction_step_from_selector (n : Num) (o : Opts) (t : Tree) (og : List Core) (hinv : Blue.NextCompaction.Inv t)
+    {c : Core} (hc : nextCompaction n o t og = some c) (s s' : KState)
+    (post outs a x : List (List (Ver Nat)))
+    (hmem : s'.mem = s.mem) (himm : s'.imm = s.imm)
+    (hsplit : treeComps s = (tagTree t c).map (·.2) ++ post)
+    (hsame : ∀ e, e ∈ outs.flatten ↔ e ∈ (inputs (tagTree t c)).flatten)
+    (houts : NewerAbove outs)
+    (hkept : kept (tagTree t c) = a ++ x)
+    (hdis : ∀ c ∈ x, ∀ d ∈ outs, Disjoint c d)
+    (hplace : treeComps s' = a ++ outs ++ x ++ post)
+    (hl0 : ∀ g ∈ s'.l0, g ∈ s.l0) (hI1 : I1 s') : CompactionOk s s' :=
+  compactionOk_of_nextCompaction n o t og hinv hc s s' post outs a x hmem himm hsplit hsame houts hkept hdis
+    hplace hl0 hI1
+
+/-! ### non-vacuity: a twelve-operation history — batch, delete, two rollover/flush rounds (two
+    overlapping level-0 files), a compaction of level 0 into level 1 whose obligations are
+    discharged, a rejected batch (key 9 twice), a batch with a delete, a rollover -/
+namespace Hist
+
+def merged : List (Ver Nat) := [(3, 4), (5, 2), (5, 1), (7, 5), (7, 1)]
+
+def ops : List Op :=
+  [.write [(5, some 50), (7, some 70)], .write [(5, none)], .rollover, .write [(3, some 30)], .flush,
+   .write [(7, some 71)], .rollover, .flush,
+   .compact [] [[⟨3, 7, 5, merged⟩]],
+   .write [(9, some 90), (9, none)], .write [(3, none), (8, some 80)], .rollover]
+
+/-- the state the compaction is applied to: two level-0 files sharing key 7 -/
+theorem before_compaction : (run init (ops.take 8)).st
+    = ⟨[], none, [⟨3, 7, 5, [(7, 5), (3, 4)]⟩, ⟨5, 7, 2, [(5, 2), (5, 1), (7, 1)]⟩], []⟩ := by rfl
+
+theorem ops_valid : Valid init ops := by
+  refine ⟨trivial, trivial, trivial, trivial, trivial, trivial, trivial, trivial, ?_, trivial, trivial, trivial, trivial⟩
+  show CompactionOk (run init (ops.take 8)).st _
+  rw [before_compaction]
+  refine .mk [(true, [(7, 5), (3, 4)]), (true, [(5, 2), (5, 1), (7, 1)])] [] [merged] [] [] rfl rfl ?_
+    (closedB_sound _ (by decide)) (mem_iff_of_subsets (by decide) (by decide)) (by decide) rfl
+    (fun c hc => by cases hc) ?_ (fun g hg => by cases hg) (i1_of_check _ (by decide))
+  · unfold treeComps l0Comps
+    rw [l0Order_cons_top _ _ (by decide), l0Order_cons_top _ _ (by decide), l0Order_nil]
+    rfl
+  · unfold treeComps l0Comps
+    show (l0Order []).map _ ++ _ = _
+    rw [l0Order_nil]
+    rfl
+
+theorem final_state : (run init ops).st = ⟨[], some [(3, 7), (8, 7)], [], [[⟨3, 7, 5, merged⟩]]⟩
+    ∧ (run init ops).seq = 8 ∧ (run init ops).vis = 7 := ⟨by rfl, by rfl, by rfl⟩
+
+/-- the specification side, by evaluation: keys 3 and 5 end deleted, 7 overwritten, 8 put by the
+    last batch, 9 only ever named by the rejected batch -/
+theorem last_writes : lastWrite ops 5 = some none ∧ lastWrite ops 7 = some (some 71) ∧ lastWrite ops 3 = some none
+    ∧ lastWrite ops 8 = some (some 80) ∧ lastWrite ops 9 = none := by decide
+
+/-- the theorem instantiated … -/
+example : Blue.StoreHist.read (run init ops) 5 = some none ∧ Blue.StoreHist.read (run init ops) 7 = some (some 71)
+    ∧ Blue.StoreHist.read (run init ops) 9 = none := by
+  simp only [Blue.Props.C01.history_reads_last_write ops ops_valid]
+  exact ⟨last_writes.1, last_writes.2.1, last_writes.2.2.2.2⟩
+
+/-- … and the store side by evaluation of `kvsLoad` itself on the final state: key 5 is found in
+    level 1 (the tombstone's version `5@2`, above `5@1`), key 7 there too (`7@5`), key 3 in the
+    immutable memtable -/
+example : kvsLoad (run init ops).st 5 7 = some (5, 2) ∧ (run init ops).pay 5 2 = some none
+    ∧ kvsLoad (run init ops).st 7 7 = some (7, 5) ∧ (run init ops).pay 7 5 = some (some 71)
+    ∧ kvsLoad (run init ops).st 3 7 = some (3, 7) ∧ kvsLoad (run init ops).st 9 7 = none := by
+  rw [final_state.1]
+  refine ⟨by decide +kernel, by rfl, by decide +kernel, by rfl, by decide +kernel, by decide +kernel⟩
+
+example : invB (run init ops).st = true := Blue.Props.C01.history_states_pass_invB ops ops_valid
+
+end Hist
+end History
+
 end Blue.Props.C01
 
 #print axioms Blue.Props.C01.read_returns_latest
@@ -431,6 +769,15 @@ end Blue.Props.C01
 #print axioms Blue.Props.C01.nextCompaction_within_limits
 #print axioms Blue.Props.C01.tree_invariant_check_sound
 #print axioms Blue.Props.C01.compute_bounds_loop_reaches_fixed_point
+#print axioms Blue.Props.C01.history_invariant
+#print axioms Blue.Props.C01.history_states_pass_invB
+#print axioms Blue.Props.C01.history_refines
+#print axioms Blue.Props.C01.history_refines_at_seq
+#print axioms Blue.Props.C01.history_reads_last_write
+#print axioms Blue.Props.C01.read_after_write
+#print axioms Blue.Props.C01.batch_all_visible
+#print axioms Blue.Props.C01.compaction_step_from_selector
+#print axioms Blue.Props.C01.Hist.ops_valid
 #print axioms Blue.Props.C01.Example.t2_closed
 #print axioms Blue.Props.C01.Example.pre2_closed
 #print axioms Blue.Props.C01.s1_inv
@@ -450,3 +797,12 @@ end Blue.Props.C01
 #print axioms Blue.Spec.sliceR_mem_iff
 #print axioms Blue.Spec.exit_covers
 #print axioms Blue.Spec.lower_bound_mutant_misses
+#print axioms Blue.Props.C01.nextCompaction_chosen
+#print axioms Blue.Props.C01.output_level_cut_drops_exactly_inputs
+#print axioms Blue.Props.C01.apply_components
+#print axioms Blue.Props.C01.apply_preserves_inv
+#print axioms Blue.Props.C01.apply_preserves_newer_above
+#print axioms Blue.Props.C01.inv_bridge
+#print axioms Blue.Props.C01.tree_step_preserves
+#print axioms Blue.Props.C01.tree_invariant_inductive
+#print axioms Blue.Props.C01.ApplyExample.successor
